@@ -1,8 +1,10 @@
 (* C04: the oligo vector of a record counts its canonical k-mers, raw or normalised.
    This file only pins statements; proofs live in Proof/. *)
-From Coq Require Import NArith ZArith List.
+From Coq Require Import NArith ZArith List Reals.
+From Flocq Require Import Core.
 From KT Require Import Gen.Generated Gen.Alphabet Gen.GeneratedFacts Model.Kmer Model.Ops Model.Rows Model.Flt.
 From KT Require Import Proof.Oligo Proof.RowsProof Proof.FmtProof Proof.LayoutProof.
+From KT Require Import Model.Show Proof.FmtError.
 Import ListNotations.
 Open Scope N_scope.
 
@@ -39,6 +41,15 @@ Theorem C04_printed_frequency_has_eight_characters :
   forall t c, (c <= Nat.max 1 t)%nat -> (Z.of_nat (Nat.max 1 t) < 2 ^ 53)%Z -> length (entry_text true t c) = 8%nat.
 Proof. exact entry_text_length. Qed.
 
+(* "correct to 6 decimals": the printed entry is the 6-decimal text of an n with
+   |n / 10^6 - count / max(1, total)| <= 0.5e-6 + 2^-53 (half a unit of the last printed digit plus the rounding
+   of the single binary64 division); fix6 n is the decimal text of n / 10^6 *)
+Theorem C04_printed_fraction_correct_to_six_decimals :
+  forall t c, (c <= Nat.max 1 t)%nat -> (Z.of_nat (Nat.max 1 t) < 2 ^ 53)%Z ->
+  exists n, entry_text true t c = fix6 n /\ (n <= 1000000)%N /\
+    (Rabs (IZR (Z.of_N n) / 1000000 - IZR (Z.of_nat c) / IZR (Z.of_nat (Nat.max 1 t))) <= / 2000000 + bpow radix2 (-53))%R.
+Proof. exact entry_text_correct. Qed.
+
 Theorem C04_all_zero_row_without_windows :
   forall k s, oligo_total_spec k s = 0%nat -> Forall (fun c => c = 0%nat) (oligo_counts_spec k s).
 Proof. exact oligo_spec_zero. Qed.
@@ -67,3 +78,4 @@ Print Assumptions C04_printed_frequency_has_eight_characters.
 Print Assumptions C04_all_zero_row_without_windows.
 Print Assumptions C04_invariant_under_reverse_complement.
 Print Assumptions C04_invariant_under_case_and_U.
+Print Assumptions C04_printed_fraction_correct_to_six_decimals.
